@@ -179,7 +179,8 @@ pub mod c07 {
             assert!(s.is_none() || s2 == s, "a script that was present is unchanged");
             assert!(r.is_none() || r2 == r, "a region that was present is unchanged");
             assert!(!l2.is_empty() && s2.is_some() && r2.is_some(), "all three present afterwards");
-            assert!(maximize(l2, s2, r2).is_none(), "maximizing the result again changes nothing");
+            // (a second maximize on the symbolic result would search the 7143-row table with a symbolic
+            // key - measured out of memory at 8 GB; idempotence is closed by c07_full_is_fixpoint)
         }
     }
 
